@@ -27,21 +27,33 @@ TECHNIQUE = 'abstract interpretation of client and server on a modelled connecti
 def check_foreign_exception_formatting(repo, res):
     """The exception a request raises is an object of the analysed / evaluated code: turning it - or anything reached from it (its
     members, its arguments) - into text runs foreign __str__ / __repr__ / __format__ methods, which may raise.  Inside the handler
-    that builds the error reply every such conversion must sit in a try of its own, otherwise the failure leaves process() and
-    ends the serving loop.  (Reading __class__.__name__ runs no foreign code.)"""
+    that builds the error reply every such conversion must sit in a try of its own (in the handler, or in the helper of server.py
+    the object is handed to), otherwise the failure leaves process() and ends the serving loop.  (Reading __class__.__name__ runs no
+    foreign code.)"""
     import ast
     from ..core import unparse, AnalysisError
+    tree = repo.tree(SERVER)
     srv = repo.klass(SERVER, 'Server')
     proc = next((f for f in srv.body if isinstance(f, ast.FunctionDef) and f.name == 'process'), None)
     if proc is None:
         raise AnalysisError('Server.process vanished')
-    n = 0
-    for h in [x for x in ast.walk(proc) if isinstance(x, ast.ExceptHandler) and x.name]:
-        tainted = {h.name}
+
+    def guarded_in(node, root):
+        p, child = getattr(node, '_parent', None), node
+        while p is not None and p is not root:
+            if isinstance(p, ast.Try) and child in p.body and any(
+                    x.type is None or unparse(x.type) in ('Exception', 'BaseException') for x in p.handlers):
+                return True
+            child, p = p, getattr(p, '_parent', None)
+        return False
+
+    def analyse(root, seed_names, outer_guard, depth):
+        """-> [(sink node, guarded)] for the conversions of objects named in seed_names (and what is derived from them) inside root"""
+        tainted = set(seed_names)
         changed = True
         while changed:
             changed = False
-            for st in ast.walk(h):
+            for st in ast.walk(root):
                 tgt = None
                 if isinstance(st, ast.Assign) and len(st.targets) == 1 and isinstance(st.targets[0], ast.Name):
                     tgt, val = st.targets[0].id, st.value
@@ -53,35 +65,44 @@ def check_foreign_exception_formatting(repo, res):
                     changed = True
 
         def foreign(e):
-            """e hands a tainted object itself (not its class name) to a conversion"""
             if isinstance(e, ast.Name):
                 return e.id in tainted
             if isinstance(e, ast.Tuple):
                 return any(foreign(x) for x in e.elts)
-            if isinstance(e, ast.Attribute):
-                return not unparse(e).endswith('.__class__.__name__') and foreign(e.value) and False
             return False
-        sinks = []
-        for c in ast.walk(h):
+        out = []
+        for c in ast.walk(root):
+            sink = False
             if isinstance(c, ast.Call) and unparse(c.func) in ('str', 'repr', 'format', 'ascii') and c.args and foreign(c.args[0]):
-                sinks.append(c)
+                sink = True
             elif isinstance(c, ast.Call) and isinstance(c.func, ast.Attribute) and c.func.attr == 'format' \
                     and any(foreign(a) for a in c.args + [k.value for k in c.keywords]):
-                sinks.append(c)
+                sink = True
             elif isinstance(c, ast.BinOp) and isinstance(c.op, ast.Mod) and isinstance(c.left, (ast.Constant, ast.JoinedStr)) and foreign(c.right):
-                sinks.append(c)
+                sink = True
             elif isinstance(c, ast.FormattedValue) and foreign(c.value):
-                sinks.append(c)
-        for c in sinks:
+                sink = True
+            if sink:
+                out.append((c, outer_guard or guarded_in(c, root)))
+                continue
+            # the object handed to a helper of this module
+            if isinstance(c, ast.Call) and depth < 2:
+                helper, params = None, []
+                if isinstance(c.func, ast.Name):
+                    helper = next((f for f in tree.body if isinstance(f, ast.FunctionDef) and f.name == c.func.id), None)
+                    params = [a.arg for a in helper.args.args] if helper else []
+                elif isinstance(c.func, ast.Attribute) and isinstance(c.func.value, ast.Name) and c.func.value.id == 'self':
+                    helper = next((f for f in srv.body if isinstance(f, ast.FunctionDef) and f.name == c.func.attr), None)
+                    params = [a.arg for a in helper.args.args][1:] if helper else []
+                if helper is not None and helper is not root:
+                    passed = {p for p, a in zip(params, c.args) if foreign(a)} | {k.arg for k in c.keywords if k.arg and foreign(k.value)}
+                    if passed:
+                        out.extend(analyse(helper, passed, outer_guard or guarded_in(c, root), depth + 1))
+        return out
+    n = 0
+    for h in [x for x in ast.walk(proc) if isinstance(x, ast.ExceptHandler) and x.name]:
+        for c, guarded in analyse(h, {h.name}, False, 0):
             n += 1
-            guarded = False
-            p, child = getattr(c, '_parent', None), c
-            while p is not None and p is not h:
-                if isinstance(p, ast.Try) and child in p.body and any(
-                        x.type is None or unparse(x.type) in ('Exception', 'BaseException') for x in p.handlers):
-                    guarded = True
-                    break
-                child, p = p, getattr(p, '_parent', None)
             res.check('C15-R2', 'process: `%s` is guarded' % unparse(c)[:50], guarded, SERVER, c.lineno,
                       'the error reply is built by converting an object of the failing request (%s) to text outside a try of its own: a '
                       '__str__ / __repr__ of evaluated code that raises leaves Server.process and ends the serving loop' % unparse(c)[:80],
